@@ -187,7 +187,9 @@ func decrypt(c *vf.Ctx, arm, pass string) (k crypto.PrivKey, err error, pv any) 
 
 func (t *armorT) mustFail(kind string, pos int, arm, pass string, extra map[string]any) {
 	c := t.c
-	c.Case(fmt.Sprintf("%s/%s/%d/%s", t.id, kind, pos, shortID(arm+"\x00"+pass)), true)
+	// the case text is (base case, action, position, tried passphrase, variant) — not the armor text, which
+	// contains CSPRNG output of the code under test
+	c.Case(fmt.Sprintf("%s/%s/%d/%q/%v", t.id, kind, pos, pass, extra["variant"]), true)
 	c.Count("armor_"+kind, 1)
 	k, err, pv := decrypt(c, arm, pass)
 	ex := map[string]any{"action": kind, "pos": pos, "tried_passphrase": pass, "tried_armor": arm}
@@ -309,7 +311,7 @@ func armorCase(c *vf.Ctx, i int, r *rand.Rand, nMut int, allBytes bool) {
 		} else if p < 40 {
 			region = "tag"
 		}
-		t.mustFail("ciphertext-byte:"+region, p, rearm(d, hdr["salt"]), t.pass, map[string]any{"xor_mask": mask})
+		t.mustFail("ciphertext-byte:"+region, p, rearm(d, hdr["salt"]), t.pass, map[string]any{"variant": mask})
 		c.Count("ciphertext_mutations", 1)
 	}
 	t.mustFail("ciphertext-truncated", len(data)-1, rearm(data[:len(data)-1], hdr["salt"]), t.pass, nil)
@@ -325,8 +327,9 @@ func armorCase(c *vf.Ctx, i int, r *rand.Rand, nMut int, allBytes bool) {
 			p = r.IntN(16)
 		}
 		s2 := clone(salt)
-		s2[p] ^= byte(1) << uint(r.IntN(8))
-		t.mustFail("salt-byte", p, rearm(data, fmt.Sprintf("%X", s2)), t.pass, nil)
+		sm := byte(1) << uint(r.IntN(8))
+		s2[p] ^= sm
+		t.mustFail("salt-byte", p, rearm(data, fmt.Sprintf("%X", s2)), t.pass, map[string]any{"variant": sm})
 	}
 	// armor text mutations: one base64 character of the body / CRC replaced. The armor text depends on the
 	// CSPRNG salt/nonce, so positions are picked by index into the list of base64 characters (whose length is
@@ -337,12 +340,13 @@ func armorCase(c *vf.Ctx, i int, r *rand.Rand, nMut int, allBytes bool) {
 			bodyPos = append(bodyPos, p)
 		}
 	}
-	other := func(p int) byte {
-		ch := b64alpha[r.IntN(64)]
+	other := func(p int) (byte, int) {
+		x := r.IntN(64)
+		ch := b64alpha[x]
 		if ch == t.arm[p] {
-			ch = b64alpha[(strings.IndexByte(b64alpha, ch)+1)%64]
+			ch = b64alpha[(x+1)%64]
 		}
-		return ch
+		return ch, x
 	}
 	ntext := 24
 	if allBytes {
@@ -353,14 +357,15 @@ func armorCase(c *vf.Ctx, i int, r *rand.Rand, nMut int, allBytes bool) {
 		if !allBytes {
 			p = bodyPos[r.IntN(len(bodyPos))]
 		}
-		m := t.arm[:p] + string(other(p)) + t.arm[p+1:]
+		ch, x := other(p)
+		m := t.arm[:p] + string(ch) + t.arm[p+1:]
 		_, _, _, d3, ok3 := armorBody(m)
 		if ok3 && bytes.Equal(d3, data) {
 			// only unused trailing bits of the last base64 quantum changed: the ciphertext BYTES are unmodified.
 			// Whether such a text must be accepted or rejected is not asserted; only "no panic, and if it
 			// succeeds it returns the original key".
 			k, err, pv := decrypt(c, m, t.pass)
-			c.Case(fmt.Sprintf("%s/text-same-bytes/%d", t.id, p), true)
+			c.Case(fmt.Sprintf("%s/armor-text-char/%d/%q/%v", t.id, p, t.pass, x), true)
 			c.Count("armor_text_mutation_same_bytes_unasserted", 1)
 			if pv != nil {
 				viol(c, "panic:armor:text-same-bytes", t.w(map[string]any{"tried_armor": m, "panic": fmt.Sprint(pv)}), "UnarmorDecryptPrivKey panicked: %v", pv)
@@ -369,11 +374,12 @@ func armorCase(c *vf.Ctx, i int, r *rand.Rand, nMut int, allBytes bool) {
 			}
 			continue
 		}
-		t.mustFail("armor-text-char", p, m, t.pass, nil)
+		t.mustFail("armor-text-char", p, m, t.pass, map[string]any{"variant": x})
 	}
 	for j := 0; j < 4 && crc+j < len(t.arm); j++ {
 		p := crc + j
-		t.mustFail("armor-crc-char", p, t.arm[:p]+string(other(p))+t.arm[p+1:], t.pass, nil)
+		ch, x := other(p)
+		t.mustFail("armor-crc-char", p, t.arm[:p]+string(ch)+t.arm[p+1:], t.pass, map[string]any{"variant": x})
 	}
 	t.mustFail("header-kdf-changed", 0, strings.Replace(t.arm, "kdf: bcrypt", "kdf: bcrypT", 1), t.pass, nil)
 }
@@ -1156,11 +1162,11 @@ func run(c *vf.Ctx) {
 	c.Logf("bip39 done")
 
 	// bcrypt-bound parts
-	nArm := c.N(28, 100)
+	nArm := c.N(20, 100)
 	nMut := c.N(8, 0)
 	c.Parallel(nArm, workers, 400000, func(i int, r *rand.Rand) { armorCase(c, i, r, nMut, !c.Quick()) })
 	c.Logf("armor done")
-	nKb := c.N(14, 100)
+	nKb := c.N(10, 100)
 	c.Parallel(nKb, workers, 500000, func(i int, r *rand.Rand) { keybaseCase(c, i, r, wl) })
 	nWin := c.N(4, 16)
 	c.Parallel(nWin, workers, 600000, func(i int, r *rand.Rand) { bcryptWindowCase(c, i, r) })
